@@ -138,6 +138,7 @@ func scenarioData(w *world, flavor string) {
 		xo.reliableOrderedOnly = w.ctape.intn(3) != 0
 		xo.deadlines = true
 		xo.oddWrites = true
+		xo.dcep = true
 	case "C12", "C13e", "C17w":
 		xo.reliableOrderedOnly = w.ctape.intn(2) == 0
 		xo.dcep = true
@@ -301,12 +302,15 @@ func runXfer(w *world, x *xfer, mon *wireMon, partition, tail bool) {
 		}
 		// C18: an empty write must not disturb later messages of its stream
 		for _, d := range x.dirs {
-			if d.emptyWrites == 0 {
+			if d.emptyWrites == 0 && d.failedOdd == 0 {
 				continue
 			}
 			for _, m := range d.msgs {
 				if m.done && m.err == nil && m.delivered == 0 && m.size > 0 {
-					prop, class = "C18", "empty-write-disturbs-stream"
+					prop, class = "C18", "failed-write-disturbs-stream"
+					if d.failedOdd == 0 {
+						class = "empty-write-disturbs-stream"
+					}
 				}
 			}
 		}
